@@ -52,6 +52,12 @@ if valid:
     rc, o = sh("git -C /repo status --short -- src | head -3")
     assert o.strip() == "", "/repo has uncommitted changes"
     rc, o = sh("git -C /repo apply " + patch)
+    # the evidence files describe the unchanged tree: keep them, the runs below overwrite them
+    saved = {}
+    for i in [pid] + extra:
+        ev = "/verif/evidence/%s.json" % i
+        if os.path.exists(ev):
+            saved[ev] = open(ev).read()
     try:
         for i in [pid] + extra:
             rc, o = sh(["./check", i, "--tier", "quick"], cwd="/verif", timeout=3000)
@@ -63,6 +69,8 @@ if valid:
                 results[i]["replay_example"] = dict(readable=r.get("readable"), oracle_mismatch=(r.get("oracle_mismatch") or [])[:2], kind=r.get("kind"))
     finally:
         sh("git -C /repo checkout -- .")
+        for ev, content in saved.items():
+            open(ev, "w").write(content)
 meta["checks"] = results
 meta["detected_by"] = [i for i, r in results.items() if r["exit"] == 1 and any(l.startswith("VIOLATION") for l in r["lines"])]
 meta["detected_with_failing_input"] = [i for i, r in results.items() if any(l.startswith("VIOLATION") and "no-failing-input-found" not in l for l in r["lines"])]
